@@ -135,6 +135,19 @@ theorem compress_exact (ts : List (Int × Int × Int)) (hr : ∀ c, c ∈ ts →
   · rw [if_pos hm]; exact hc.1 ((hh x y p).2 hm)
   · rw [if_neg hm]; exact hc.2 (fun h => hm ((hh x y p).1 h))
 
+/-- set reading of `Exact`: some emitted pair selects core `p` of chip `(x, y)` iff it was requested,
+and never more than one pair does -/
+theorem exact_select_iff (targets : List (Nat × Nat × Nat)) (out : List (Nat × Nat))
+    (h : Exact targets out) (x y p : Nat) :
+    ((∃ pr, pr ∈ out ∧ sel pr x y p = true) ↔ (x, y, p) ∈ targets) ∧ countSel out x y p ≤ 1 := by
+  have h1 := h x y p
+  have h2 : 0 < countSel out x y p ↔ ∃ pr, pr ∈ out ∧ sel pr x y p = true := by
+    unfold countSel; exact List.countP_pos_iff
+  rw [← h2, h1]
+  by_cases hm : (x, y, p) ∈ targets
+  · simp [hm]
+  · simp [hm]
+
 /-- **Order.** The emitted list is strictly increasing in `(region, core mask)`. -/
 theorem compress_sorted (ts : List (Int × Int × Int)) (hr : ∀ c, c ∈ ts → InRange c) :
     ∃ out, compress ts = .ok out ∧ StrictlyIncreasing out := by
